@@ -742,7 +742,9 @@ func (sp *sourcePrinter) functions(f *sourceFile) []sourceFunction {
 		// See if we should merge into preceding function.
 		if len(funcs) > 0 {
 			last := funcs[len(funcs)-1]
-			if l-last.end < mergeLimit && last.name == name {
+			// The gap cannot be negative (lines are sorted); a negative value means
+			// the subtraction overflowed, i.e. the lines are very far apart.
+			if gap := l - last.end; gap >= 0 && gap < mergeLimit && last.name == name {
 				last.end = l + 1
 				last.flat += fn.flat
 				last.cum += fn.cum
@@ -769,8 +771,9 @@ func (sp *sourcePrinter) functions(f *sourceFile) []sourceFunction {
 			}
 		} else {
 			// Find gap from predecessor and divide between predecessor and f.
-			halfGap := (f.begin - funcs[i-1].end) / 2
-			if halfGap > expand {
+			gap := f.begin - funcs[i-1].end
+			halfGap := gap / 2
+			if halfGap > expand || gap < 0 { // gap < 0: overflow, the gap is huge
 				halfGap = expand
 			}
 			funcs[i-1].end += halfGap
